@@ -9,6 +9,7 @@
 //	           read-back vs the Lean write loop; SPEC: notifications/positions delimit exactly the batch
 //	system     system: the assembled server (lrsrv.Start), direct + RPC + raw-packet writes, reads through backend.Querier
 //	           and the RPC client; SPEC: read-back = concatenation of acknowledged batches per partition
+//	tailrace   deterministic replay of #34: scripted journal under the real journal iterators vs the observation models
 //	xread      concurrent readers on separate connections over a quiescent store: each read = exactly the partition's events
 //	stress     thorough only: K free-running writers (RPC and direct, shared and private partitions) + concurrent readers;
 //	           the exactly-once/order/content property is checked on a final read after all writers finished and flushed
@@ -50,6 +51,7 @@ type corpusSets struct {
 	pkt []pktCase
 	wl  []wlCase
 	sys []sysCase
+	tail []tailCase
 }
 
 func (cs *corpusSets) add(d corpusDoc) bool {
@@ -76,6 +78,15 @@ func (cs *corpusSets) add(d corpusDoc) bool {
 		var c sysCase
 		if json.Unmarshal(d.Input, &c) == nil {
 			cs.sys = append(cs.sys, c)
+			return true
+		}
+	case "tailrace":
+		var c tailCase
+		if json.Unmarshal(d.Input, &c) == nil && len(c.Script) > 0 {
+			if c.Fuel == 0 {
+				c.Fuel, c.Polls = 700, 10
+			}
+			cs.tail = append(cs.tail, c)
 			return true
 		}
 	}
@@ -511,6 +522,8 @@ func replay(path string) {
 		runWriteLoopCase(cs.wl[0], col, sec)
 	case len(cs.sys) > 0:
 		runSysCase(cs.sys[0], col, sec)
+	case len(cs.tail) > 0:
+		runTailCase(cs.tail[0], col, sec)
 	}
 	for _, k := range col.chks {
 		fmt.Printf("%-40.200s\n    impl=%s\n", k.line, clip(k.impl))
@@ -555,6 +568,7 @@ func main() {
 	sectionPacket(rng.Fork("packet"), cs.pkt)
 	sectionWriteLoop(rng.Fork("writeloop"), cs.wl)
 	sectionSystem(rng.Fork("system"), cs.sys)
+	sectionTailRace(rng.Fork("tailrace"), cs.tail)
 	sectionXRead(rng.Fork("xread"))
 	sectionStress(rng.Fork("stress"))
 	res.Write(args.Out)
